@@ -1,7 +1,7 @@
 """Independent writer of layer group files (.lgb) WITH layers and instance objects (see spec/LayerGroup.tla).
 group = {"file_id","chunk_id","group","name": bytes, "layers": [layer]}
 layer = {"id","name": bytes,"flags":[4 bools],"festival":(id, phase),"temporary","housing","mask","sets":(type 0..3,[u32..]),"objects":[obj]}
-obj   = {"type": 1|5|13|40|41, "id", "name": bytes, "transform":[9 u32 bit patterns], "data": [...]}
+obj   = {"type": 1|5|6|13|40|41, "id", "name": bytes, "transform":[9 u32 bit patterns], "data": [...]}
    type 5: data = [kind 1..4, jp offset, en offset];  type 40: data = [kind 1..3, pos, count, ratio bits, index]"""
 import struct
 
@@ -13,6 +13,9 @@ def obj_bytes(o, rng):
         body += struct.pack("<iII", *d)
     elif o["type"] == 1:       # model path, collision path, collision kind, mask, attribute, configuration, 3 flags, range
         body += struct.pack("<IIiIIiBBB", *d[:9]) + bytes([rng.randrange(256)]) + struct.pack("<I", d[9])
+    elif o["type"] == 6:       # asset, door, members, count, rotation, 3 flags | bound, move path, flag | transform state, colour state
+        body += struct.pack("<IiiiiBBB", *d[:8]) + bytes([rng.randrange(256)]) + struct.pack("<IiB", *d[8:11]) + bytes(rng.randrange(256) for _ in range(3)) \
+            + struct.pack("<ii", *d[11:])
     elif o["type"] == 40:
         body += struct.pack("<iiiIB", *d) + bytes(rng.randrange(256) for _ in range(3)) + struct.pack("<I", rng.getrandbits(32))
     elif o["type"] == 13:      # asset, bound, shape, flag, priority, range, interpolation, reverb, filter, sound
@@ -85,6 +88,11 @@ def random_group(rng):
                 objs.append({"type": 1, "id": rng.getrandbits(32), "name": name(0, 9), "transform": [f32() for _ in range(9)],
                              "data": [rng.getrandbits(32), rng.getrandbits(32), rng.randint(0, 2), rng.getrandbits(32), rng.getrandbits(32),
                                       rng.randrange(-2**31, 2**31), rng.choice([0, 1]), rng.choice([0, 1]), rng.choice([0, 1]), f32()]})
+            elif 0.85 <= r < 0.93:
+                objs.append({"type": 6, "id": rng.getrandbits(32), "name": name(0, 9), "transform": [f32() for _ in range(9)],
+                             "data": [rng.getrandbits(32), rng.randint(1, 3), rng.randrange(-2**31, 2**31), rng.randrange(0, 50), rng.randint(1, 2),
+                                      rng.choice([0, 1]), rng.choice([0, 1]), rng.choice([0, 1]), rng.getrandbits(32), rng.randrange(-2**31, 2**31),
+                                      rng.choice([0, 1]), rng.randint(0, 3), rng.randint(0, 3)]})
             elif r < 0.2:
                 objs.append({"type": 13, "id": rng.getrandbits(32), "name": name(0, 9), "transform": [f32() for _ in range(9)],
                              "data": [rng.getrandbits(32), rng.getrandbits(32), rng.randint(1, 3), rng.choice([0, 1]), rng.randrange(256),
